@@ -49,6 +49,7 @@ func runC03(c *Config, r *Report) {
 		x.r12()
 		x.r13()
 		c03R17to19(ic, x, r)
+		c03R21(ic, x, r)
 		x.rule16 = "R03.20"
 		x.r2x13()
 	}
